@@ -88,7 +88,10 @@ func execOp1(toks []string) (string, string) {
 			return "err:badop", "-"
 		}
 		seed := kit.Atou64(toks[2])
-		depth := kit.Atoi(toks[3])
+		depth, err := strconv.Atoi(toks[3])
+		if err != nil {
+			return "err:badop", "-"
+		}
 		pv := genTop(rt, seed, depth, true)
 		enc, _, verdict := checkRT(rt, pv)
 		if toks[0] == "rtx" {
@@ -183,18 +186,37 @@ func emitDec(w *kit.Out, t *regType, bz []byte, env string, envOK bool) {
 	w.Op("decx %s %s", t.Name, kit.Hex(bz))
 }
 
+// boundaryBytes: inputs every type is tried on first.
+var boundaryBytes = [][]byte{
+	nil, {0x00}, {0x08}, {0x0a}, {0x0a, 0x00}, {0x08, 0x00}, {0x0d}, {0x09}, {0x0b}, {0xff},
+	{0x0a, 0x80, 0x00}, {0x0a, 0x01}, {0x12, 0x00, 0x0a, 0x00}, {0x0a, 0x00, 0x0a, 0x00},
+	{0xf8, 0xff, 0xff, 0xff, 0x0f, 0x00}, {0x80, 0x80, 0x80, 0x80, 0x80, 0x80, 0x80, 0x80, 0x80, 0x80, 0x01},
+}
+
 func gen(w *kit.Out, r *kit.Rand, tier string) {
-	perType, decPer := 4, 6
+	perType, decPer := 6, 10
 	if tier == "thorough" {
-		perType, decPer = 40, 60
+		perType, decPer = 80, 120
 	}
+	// (i) boundary table: zero value and shallow value of every type; fixed byte strings
+	w.Case("boundary")
+	for _, t := range regTypes {
+		emitRT(w, t, 0, -1)
+		emitRT(w, t, 1, 0)
+		pv := genTop(t, 0, -1, true)
+		env, _, envOK, marsh := envMV(t, pv)
+		for _, bz := range boundaryBytes {
+			emitDec(w, t, bz, env, envOK && !marsh)
+		}
+	}
+	// (ii) structured random values (mostly valid)
 	w.Case("rt")
 	for _, t := range regTypes {
-		emitRT(w, t, 0, 0)
 		for i := 0; i < perType; i++ {
 			emitRT(w, t, r.U64()>>1, 1+r.Intn(4))
 		}
 	}
+	// (iii) malformed stream: valid encodings, mutations of them, garbage
 	w.Case("dec")
 	for _, t := range regTypes {
 		for i := 0; i < decPer; i++ {
